@@ -20,6 +20,7 @@ import (
 	"os"
 	"os/exec"
 	"runtime/debug"
+	"strconv"
 	"strings"
 	"time"
 
@@ -37,28 +38,28 @@ import (
 
 // Action is one step of a node script.
 type Action struct {
-	A      string                 `json:"a"`              // block | checktx | simulate | abci | rpc | dispatch | store | sleep
-	OnlyA  bool                   `json:"onlyA"`          // off-chain: executed by role A only
-	Txs    []map[string]interface{} `json:"txs,omitempty"` // block: abstract transactions
-	Tx     map[string]interface{} `json:"tx,omitempty"`   // checktx / simulate
-	Path   string                 `json:"path,omitempty"` // abci / store query path
-	Who    string                 `json:"who,omitempty"`  // subject account name
-	Chain  string                 `json:"chain,omitempty"`
-	Height int64                  `json:"height,omitempty"`
-	Ms     int                    `json:"ms,omitempty"`
-	TimeOffsetSec int64           `json:"timeOffsetSec,omitempty"`
-	Absent []string               `json:"absent,omitempty"` // block: validators that did not sign the previous block
-	Proposer string               `json:"proposer,omitempty"` // block: proposer (default: first validator)
+	A             string                   `json:"a"`              // block | checktx | simulate | abci | rpc | dispatch | store | sleep
+	OnlyA         bool                     `json:"onlyA"`          // off-chain: executed by role A only
+	Txs           []map[string]interface{} `json:"txs,omitempty"`  // block: abstract transactions
+	Tx            map[string]interface{}   `json:"tx,omitempty"`   // checktx / simulate
+	Path          string                   `json:"path,omitempty"` // abci / store query path
+	Who           string                   `json:"who,omitempty"`  // subject account name
+	Chain         string                   `json:"chain,omitempty"`
+	Height        int64                    `json:"height,omitempty"`
+	Ms            int                      `json:"ms,omitempty"`
+	TimeOffsetSec int64                    `json:"timeOffsetSec,omitempty"`
+	Absent        []string                 `json:"absent,omitempty"`   // block: validators that did not sign the previous block
+	Proposer      string                   `json:"proposer,omitempty"` // block: proposer (default: first validator)
 }
 
 type Script struct {
-	Seed    int64    `json:"seed"`
-	Role    string   `json:"role"`
-	T0Unix  int64    `json:"t0unix,omitempty"` // genesis time override (C12 wall-clock scenarios)
-	Actions []Action `json:"actions"`
-	Export  int64    `json:"export,omitempty"` // export state at this height at the end
-	Import  json.RawMessage `json:"import,omitempty"` // start from this exported app state
-	NoParamFeatures bool    `json:"noParamFeatures,omitempty"` // leave the features that add governance parameters inactive
+	Seed            int64           `json:"seed"`
+	Role            string          `json:"role"`
+	T0Unix          int64           `json:"t0unix,omitempty"` // genesis time override (C12 wall-clock scenarios)
+	Actions         []Action        `json:"actions"`
+	Export          int64           `json:"export,omitempty"`          // export state at this height at the end
+	Import          json.RawMessage `json:"import,omitempty"`          // start from this exported app state
+	NoParamFeatures bool            `json:"noParamFeatures,omitempty"` // leave the features that add governance parameters inactive
 }
 
 type BlockOut struct {
@@ -69,12 +70,13 @@ type BlockOut struct {
 }
 
 type NodeOut struct {
-	Blocks  []BlockOut      `json:"blocks"`
-	Final   chainsim.State  `json:"final"`
-	Export  json.RawMessage `json:"export,omitempty"`
-	AtExport *chainsim.State `json:"atExport,omitempty"`
-	Off     []string        `json:"off"` // outcomes of off-chain requests (informational)
-	Panic   string          `json:"panic,omitempty"`
+	Blocks    []BlockOut            `json:"blocks"`
+	Final     chainsim.State        `json:"final"`
+	Export    json.RawMessage       `json:"export,omitempty"`
+	AtExport  *chainsim.State       `json:"atExport,omitempty"`
+	ExpClaims []chainsim.ClaimState `json:"expClaims"` // the claims section of the exported document itself
+	Off       []string              `json:"off"`       // outcomes of off-chain requests (informational)
+	Panic     string                `json:"panic,omitempty"`
 }
 
 func relConfig(seed int64) chainsim.Config {
@@ -340,6 +342,7 @@ func runNode(sc Script) (out NodeOut) {
 			return
 		}
 		out.Export = ex
+		out.ExpClaims = claimsOfExport(s, ex)
 		ctx, err2 := s.App.NewContext(sc.Export)
 		if err2 == nil {
 			st := s.ProjectCtx(ctx)
@@ -432,4 +435,40 @@ func stackTop() string {
 		}
 	}
 	return strings.Join(out, " | ")
+}
+
+// claimsOfExport reads the pending claims out of the exported genesis document (module
+// pocketcore, field claims) in the vocabulary of the projection, so that the document can be
+// compared with the state it was exported from even when the import does not go through.
+func claimsOfExport(s *chainsim.Sim, ex json.RawMessage) []chainsim.ClaimState {
+	out := []chainsim.ClaimState{}
+	var mods map[string]json.RawMessage
+	if json.Unmarshal(ex, &mods) != nil {
+		return out
+	}
+	var pc struct {
+		Claims []struct {
+			Header struct {
+				App     string      `json:"app_public_key"`
+				Chain   string      `json:"chain"`
+				Session json.Number `json:"session_height"`
+			} `json:"header"`
+			Total    json.Number `json:"total_proofs"`
+			From     string      `json:"from_address"`
+			Evidence json.Number `json:"evidence_type"`
+			Expires  json.Number `json:"expiration_height"`
+		} `json:"claims"`
+	}
+	d := json.NewDecoder(bytes.NewReader(mods["pocketcore"]))
+	d.UseNumber()
+	if d.Decode(&pc) != nil {
+		return out
+	}
+	num := func(n json.Number) int64 { v, _ := strconv.ParseInt(strings.Trim(n.String(), "\""), 10, 64); return v }
+	for _, c := range pc.Claims {
+		a, _ := sdk.AddressFromHex(c.From)
+		out = append(out, chainsim.ClaimState{Node: s.Name(a), App: s.NameOfPubKeyHex(c.Header.App), Chain: c.Header.Chain,
+			SessionH: num(c.Header.Session), Total: num(c.Total), Evidence: int(num(c.Evidence)), Expires: num(c.Expires)})
+	}
+	return out
 }
